@@ -23,8 +23,13 @@ for d in sorted(glob.glob(os.path.join(V, "seeded", "C*-*"))):
             m = re.match(r"EVAL (\S+) (\S+) tier=(\S+) rc=(\d+) (\d+) violation lines; ?(.*)", line.strip())
             if m:
                 evals.append({"check": m.group(2), "tier": m.group(3), "exit": int(m.group(4)), "violation_lines": int(m.group(5)), "replays": m.group(6).strip()})
-    last = evals[-1] if evals else None
-    first = evals[0] if evals else None
+    latest = {}
+    for e in evals:
+        latest[e["check"]] = e  # the most recent evaluation per check
+    caught_by = sorted(c for c, e in latest.items() if e["exit"] == 1 and e["violation_lines"] > 0)
+    own = [e for e in evals if e["check"] == prop]
+    last = own[-1] if own else (evals[-1] if evals else None)
+    first = own[0] if own else None
     meta = {
         "breaks_property": prop,
         "patch": "patch.diff",
@@ -34,13 +39,16 @@ for d in sorted(glob.glob(os.path.join(V, "seeded", "C*-*"))):
         "confirmed_here": ver,
         "what_was_run": "tools/seed_verify.sh (demo on clean and patched scratch worktree; full baseline pytest command on the patched worktree compared with BASELINE.json stable_pass); tools/seed_eval.sh (the property's check against a scratch worktree with the patch applied, VERIF_REPO)",
         "check_results": evals,
-        "detected_by_current_quick_check": bool(last and last["exit"] == 1 and last["violation_lines"] > 0),
+        "detected_by_current_quick_check": bool(caught_by),
+        "caught_by_checks": caught_by,
         "missed_by_the_check_when_first_tried": bool(first and first["exit"] != 1),
     }
     json.dump(meta, open(os.path.join(d, "meta.json"), "w"), indent=1)
-    rows.append((name, prop, meta["detected_by_current_quick_check"], meta["missed_by_the_check_when_first_tried"], last))
+    rows.append((name, prop, caught_by, meta["missed_by_the_check_when_first_tried"], last))
 with open(os.path.join(V, "seeded", "SUMMARY.md"), "w") as f:
-    f.write("# Seeded changes and which check catches them\n\n| seed | property | caught by `./check <property> --tier quick` | first missed, check then strengthened | last result |\n|---|---|---|---|---|\n")
+    f.write("# Seeded changes and which check catches them\n\nA/B = first round of sub-agents, C/D = second round (told which places were already used). "
+            "Every change was confirmed here (demo passes clean / fails patched, 538 stable baseline tests still pass).\n\n"
+            "| seed | property | caught by quick check(s) | first missed by its property's check (check then strengthened) | last result of its property's check |\n|---|---|---|---|---|\n")
     for name, prop, det, missed, last in rows:
-        f.write(f"| {name} | {prop} | {'yes' if det else 'NO'} | {'yes' if missed else ''} | {('exit %d, %d VIOLATION line(s)' % (last['exit'], last['violation_lines'])) if last else 'not evaluated'} |\n")
+        f.write(f"| {name} | {prop} | {', '.join(det) if det else 'NO'} | {'yes' if missed else ''} | {('exit %d, %d VIOLATION line(s)' % (last['exit'], last['violation_lines'])) if last else 'not evaluated'} |\n")
 print(sum(1 for r in rows if r[2]), "of", len(rows), "caught")
